@@ -267,6 +267,23 @@ def unmap(prog, rep, fam, mi):
             ok = t.attr == p and kind == "id"
             rep.check(ok, "C11.unmap", inst, site, f"self.{p} <- {sn}",
                       f"fitted scipy '{sn}' = {kind}({p}) is written to self.{t.attr}" + ("" if kind == "id" else f" without inverting {kind}"))
+        # "is still that value after fitting": the value written back is the one scipy's fit returns.  The generic fit
+        # restores a fixed keyword exactly; a family's own fit override may not (read from the scipy sources).  Where it
+        # does not, the fixed value must be put back after the fit.
+        tr = scipyinfo.fit_transforms(dist).get(sn)
+        inst2 = f"{fam.ci.qualname}._fit_mle:result{i}={sn}:fixed-kept"
+        if tr is None:
+            rep.ok("C11.unmap", inst2, site, f"scipy.stats.{dist}.fit hands a fixed '{sn}' back unchanged (no rewriting override in the scipy sources)")
+            continue
+        fp = A(f"f_{p}")
+        after = [st_ for st_ in _attr_stores(fn, mi.b, mi.pcs) if st_[0] == p and st_[3] is not mi.fit_stmt
+                 and mi.cfg.reachable(mi.cfg.node(mi.fit_stmt), mi.cfg.node(st_[3]))]
+        restored = [st_ for st_ in after if st_[1] == fp and ("not", ("isnone", fp)) in st_[2]]
+        spoiled = [st_ for st_ in after if st_ not in restored and any(mi.cfg.reachable(mi.cfg.node(r_[3]), mi.cfg.node(st_[3])) for r_ in restored)]
+        rep.check(bool(restored) and not spoiled and kind == "id", "C11.unmap", inst2, fn.where(restored[0][3]) if restored else site,
+                  f"self.{p} = self.f_{p} after the fit where {p} is fixed (scipy rewrites the value: {tr[1]})",
+                  f"scipy.stats.{dist}.fit does not return a fixed '{sn}' unchanged (scipy/stats/_continuous_distns.py:{tr[0]}: {tr[1]}), and _fit_mle stores the "
+                  f"returned value in self.{p}: a fixed {p} is not its fixed value after fitting unless 'self.{p} = self.f_{p}' follows the fit under 'self.f_{p} is not None'")
 
 
 # ---------------------------------------------------------------------- lsq
@@ -509,6 +526,25 @@ def generic(prog, rep, fam):
     rep.check(ok, "C11.generic", f"{ci.qualname}.__init__:f_kw", fn.where(),
               "f_<name>=v sets both self.f_<name> and self.<name> to v",
               "an f_<name> keyword must set both the f_ attribute and the parameter itself to the same value")
+    # ... and stays the value: a plain keyword of the same name must not overwrite it (whatever the keyword order), and
+    # f_<name>=None ("not fixed", the default) must not wipe the parameter
+    from vstat.terms import walk as _walk
+    mentions_fixed_sibling = lambda l, key: any(w[0] == "fstr" and w[1][:1] == (("const", "f_"),) and len(w[1]) == 2 and w[1][1][0] == "fmt" and w[1][1][1] == key for w in _walk(l))
+    plain = [s_ for s_ in sets if s_[0][0] == "key" and s_ not in fkey]
+    okw = bool(plain) and all(any(mentions_fixed_sibling(l, s_[0]) for l in s_[2]) for s_ in plain)
+    if not okw and plain:
+        # or: the keywords are visited in an order that puts every f_ keyword after the plain ones
+        for lp in [x for x in cfg_of(fn).all_stmts() if isinstance(x, ast.For)]:
+            it = b.term(lp.iter, lp)
+            if it[0] == "call" and it[1] == G("sorted") and any(w == ("const", "f_") for w in _walk(it)) and all(lp in [p_ for p_, _w in cfg_of(fn).enclosing(s_[3])] for s_ in plain + fkey):
+                okw = True
+    rep.check(okw, "C11.generic", f"{ci.qualname}.__init__:f_kw:wins", fn.where(plain[0][3]) if plain else fn.where(),
+              "a plain keyword is stored only where no fixed value is given for the same parameter",
+              "a plain keyword <name>=v must not overwrite the value of f_<name> given in the same call: with the keywords in the order (f_<name>, <name>) "
+              "the parameter ends up as v although it is declared fixed (store it only where kwargs has no f_<name>, or visit the f_ keywords last)")
+    okn = bool(stripped) and all(("not", ("isnone", s_[1])) in s_[2] for s_ in stripped)
+    rep.check(okn, "C11.generic", f"{ci.qualname}.__init__:f_kw:none", fn.where(stripped[0][3]) if stripped else fn.where(),
+              "f_<name>=None leaves the parameter alone", "f_<name>=None means 'not fixed' (the default): it must not set the parameter itself to None")
     mf = fam.m["_fit_mle"]
     rep.analysed(mf)
     bm = fam.b(mf, inline=False)
